@@ -52,6 +52,7 @@ struct Case {
   overrun: bool,
   replays: Vec<Replay>,
   first_cursor: Option<(String, Vec<(u64, u32)>)>, // cursor after page 1 and the hits of page 2
+  debug: Option<Value>, // filled when the walk differs from the big request: ids, scores, documents
 }
 
 fn unhex(s: &str) -> Option<Vec<u8>> {
@@ -268,9 +269,19 @@ fn main() {
         if pages.len() >= 3 {
           bump(&mut dist, "walks_with_3_or_more_pages", 1);
         }
+        let walked: Vec<(u64, u32)> = pages.iter().flat_map(|p| p.hits.clone()).collect();
+        let debug = if walked != full {
+          Some(json!({
+            "big_request": full.iter().map(|(id, b)| json!([id, f32::from_bits(*b), w.batch_of(*id)])).collect::<Vec<_>>(),
+            "walk": pages.iter().map(|p| p.hits.iter().map(|(id, b)| json!([id, f32::from_bits(*b)])).collect::<Vec<_>>()).collect::<Vec<_>>(),
+            "documents": full.iter().map(|(id, _)| json!([id, w.fields_of(*id)["body"]])).collect::<Vec<_>>(),
+          }))
+        } else {
+          None
+        };
         cases.push(Case {
           req: base.clone(), limit, cand, fast, exhaustive, gen: gen0, plan, nfields,
-          segs: segs.clone(), full: full.clone(), pages, overrun, replays: Vec::new(), first_cursor,
+          segs: segs.clone(), full: full.clone(), pages, overrun, replays: Vec::new(), first_cursor, debug,
         });
       }
     }
@@ -416,8 +427,9 @@ fn main() {
       })
       .collect();
     lits.push(format!(
-      "{{| segs := {}; full := {}; limit := {}; cand := {}; fast := {}; exhaustive := {}; gen := {}; plan := {}; nfields := {}; pages := {}; overrun := {}; replays := {} |}}",
-      coq::list(&segs), coq_pairs(&c.full), c.limit, c.cand, coq::b(c.fast), coq::b(c.exhaustive), c.gen, c.plan,
+      "{{| segs := {}; full := {}; limit := {}; cand := {}; fast := {}; exhaustive := {}; strategy := {}; gen := {}; plan := {}; nfields := {}; pages := {}; overrun := {}; replays := {} |}}",
+      coq::list(&segs), coq_pairs(&c.full), c.limit, c.cand, coq::b(c.fast), coq::b(c.exhaustive),
+      match c.req["execution"].as_str() { Some("bm25") => 0, Some("wand") => 1, _ => 2 }, c.gen, c.plan,
       c.nfields, coq::list(&pages), coq::b(c.overrun), coq::list(&replays)
     ));
     meta.push(json!({
@@ -425,7 +437,7 @@ fn main() {
       "pages": c.pages.iter().map(|p| json!({"err": p.err, "n": p.hits.len(), "total": p.total, "next": p.raw_next})).collect::<Vec<_>>(),
       "segments": c.segs.iter().map(|s| s.len()).collect::<Vec<_>>(),
       "replays": c.replays.iter().map(|r| json!({"kind": r.kind, "err": r.err, "same": r.same})).collect::<Vec<_>>(),
-      "nt": c.pages.len() >= 2,
+      "nt": c.pages.len() >= 2, "execution": c.req["execution"], "differs_from_big_request": c.debug,
     }));
   }
   let files = write_cases(&args.out, "From SL Require Import C11.Model.", "case", "check_case", &lits, 40);
